@@ -607,6 +607,131 @@ def exec_sdmxgen_history(hist, rp):
 
 
 # ---------------------------------------------------------------------------------
+# plan-level histories (NLDF plans cache interpolation tensors and l=1 vectors per spin)
+# ---------------------------------------------------------------------------------
+def gen_plan_history(seed):
+    from cidersim.workloads import omp_workloads as W
+
+    rng = Rng(derive("c09-plan", seed))
+    p = W.draw_plan_params(rng)
+    p["nspin"] = rng.choice([1, 2, 2])
+    p["smooth"] = False
+    # fewer grid points than interpolation exponents makes eval_vxc_vj_ raise (it takes nalpha
+    # from the grid axis; harmless when ngrids >= nalpha, as in every real block): not generated
+    p["n"] = rng.choice([22, 33, 64, 100, 257])
+    ops = []
+    have = set()
+    for _ in range(rng.randint(3, 9)):
+        s = rng.below(p["nspin"])
+        if s in have and rng.chance(0.5):
+            ops.append({"op": "vxc", "spin": s, "v": rng.below(3)})
+        else:
+            ops.append({"op": "rho", "spin": s, "f": rng.below(3), "rho": rng.below(3), "cache_p": bool(rng.chance(0.85))})
+            have.add(s)
+    return {"kind": "plan", "params": p, "ops": ops, "perturb": rng.choice(PERTURBS)}
+
+
+def exec_plan_history(hist, rp):
+    from ciderpress.dft.plans import NLDFGaussianPlan, NLDFSplinePlan
+    from cidersim import zoo
+    from cidersim.workloads import omp_workloads as W
+
+    p = hist["params"]
+    viol = []
+    stats = Counter()
+    dg = Digest()
+
+    def V(key, detail):
+        viol.append({"key": key, "detail": detail, "replay": rp})
+
+    set_perturb(hist["perturb"])
+    rng = Rng(derive("omp-plan", p["sseed"]))
+    st = zoo.make_settings(p["kind"], rng, normalizer=False)
+    nl = st.nldf_settings
+    cls = NLDFGaussianPlan if p["plan_type"] == "gaussian" else NLDFSplinePlan
+
+    def make_plan():
+        alpha0 = nl.theta_params[0] / 64
+        lambd = float((3e4 / alpha0) ** (1.0 / (p["nalpha"] - 1)))
+        return cls(nl, p["nspin"], alpha0, lambd, p["nalpha"], coef_order=p["order"], alpha_formula=p["formula"])
+
+    plan = make_plan()
+    n = p["n"]
+    nrho = 5 if nl.sl_level == "MGGA" else 4
+    nprng = np.random.default_rng(p["dseed"])
+    rhos = [W._rho_data(nprng, nrho, n) for _ in range(3)]
+    shape = plan.zero_coefs_full(n).shape
+    fs = [nprng.normal(size=shape) for _ in range(3)]
+    vfs = [nprng.normal(size=(nl.nfeat, n)) for _ in range(3)]
+    site = type(plan).__name__
+    fresh = {}
+
+    def ref_rho(i, j, s):
+        k = ("r", i, j, s)
+        if k not in fresh:
+            set_perturb(hist["perturb"] ^ 0x5A)
+            pl = make_plan()
+            feat, dfeat = pl.eval_rho_full(fs[i].copy(), rhos[j].copy(), spin=s)
+            fresh[k] = (np.array(feat, copy=True), np.array(dfeat, copy=True))
+            set_perturb(hist["perturb"])
+            stats["reference_calls"] += 1
+        return fresh[k]
+
+    def ref_vxc(i, j, kv, s):
+        k = ("v", i, j, kv, s)
+        if k not in fresh:
+            set_perturb(hist["perturb"] ^ 0x5A)
+            pl = make_plan()
+            feat, dfeat = pl.eval_rho_full(fs[i].copy(), rhos[j].copy(), spin=s)
+            vrho = np.zeros_like(rhos[j])
+            vf = pl.eval_vxc_full(vfs[kv].copy(), vrho, dfeat, rhos[j].copy(), spin=s)
+            fresh[k] = (np.array(vf, copy=True), np.array(vrho, copy=True))
+            set_perturb(hist["perturb"])
+            stats["reference_calls"] += 1
+        return fresh[k]
+
+    last = {}
+    for step, op in enumerate(hist["ops"]):
+        s = op["spin"]
+        stats["op_plan_" + op["op"]] += 1
+        dg.add(op["op"], s)
+        try:
+            if op["op"] == "rho":
+                f_in, r_in = fs[op["f"]].copy(), rhos[op["rho"]].copy()
+                b = adigest(f_in, r_in)
+                feat, dfeat = plan.eval_rho_full(f_in, r_in, spin=s, cache_p=op["cache_p"])
+                if adigest(f_in, r_in) != b:
+                    V("input-mutated:%s.eval_rho_full:f-or-rho" % site, "step %d" % step)
+                rf, rd = ref_rho(op["f"], op["rho"], s)
+                for name, a, c in (("feat", feat, rf), ("dfeat", dfeat, rd)):
+                    ok, why = close(a, c)
+                    stats["comparisons"] += 1
+                    if not ok:
+                        V("history_vs_fresh:%s.eval_rho_full:%s:spin%d" % (site, name, s), "step %d: %s" % (step, why))
+                last[s] = (op["f"], op["rho"], np.array(dfeat, copy=True), op["cache_p"])
+            else:
+                if s not in last or not last[s][3]:
+                    continue
+                i, j, dfeat, _ = last[s]
+                v_in, r_in = vfs[op["v"]].copy(), rhos[j].copy()
+                b = adigest(v_in, r_in, dfeat)
+                vrho = np.zeros_like(r_in)
+                vf = plan.eval_vxc_full(v_in, vrho, dfeat, r_in, spin=s)
+                if adigest(v_in, r_in, dfeat) != b:
+                    V("input-mutated:%s.eval_vxc_full:vfeat-dfeat-or-rho" % site, "step %d" % step)
+                rvf, rvr = ref_vxc(i, j, op["v"], s)
+                for name, a, c in (("vf", vf, rvf), ("vrho", vrho, rvr)):
+                    ok, why = close(a, c)
+                    stats["comparisons"] += 1
+                    if not ok:
+                        V("history_vs_fresh:%s.eval_vxc_full:%s:spin%d" % (site, name, s), "step %d: %s" % (step, why))
+        except Exception as ex:
+            V("call-raises:%s.%s:%s" % (site, op["op"], type(ex).__name__), "step %d: %s" % (step, str(ex)[:200]))
+            break
+    return viol, stats, dg
+
+
+# ---------------------------------------------------------------------------------
 # evaluator-level histories (chunking, accumulation, repetition)
 # ---------------------------------------------------------------------------------
 def gen_eval_history(seed):
@@ -706,7 +831,7 @@ def exec_eval_history(hist, rp):
 
 
 # ---------------------------------------------------------------------------------
-EXEC = {"ni": exec_ni_history, "nldfgen": exec_nldfgen_history, "sdmxgen": exec_sdmxgen_history, "eval": exec_eval_history}
+EXEC = {"ni": exec_ni_history, "nldfgen": exec_nldfgen_history, "sdmxgen": exec_sdmxgen_history, "eval": exec_eval_history, "plan": exec_plan_history}
 
 
 def gen_history(kind, seed):
@@ -714,6 +839,8 @@ def gen_history(kind, seed):
         return gen_ni_history(seed)
     if kind == "gen":
         return gen_gen_history(seed)
+    if kind == "plan":
+        return gen_plan_history(seed)
     return gen_eval_history(seed)
 
 
@@ -774,6 +901,8 @@ def plan(tier, seed, args):
         cases.append({"hkind": "gen", "seed": derive(seed, PROP, "gen", i) % 10**9})
     for i in range(n_ev):
         cases.append({"hkind": "eval", "seed": derive(seed, PROP, "eval", i) % 10**9})
+    for i in range(n_ev):
+        cases.append({"hkind": "plan", "seed": derive(seed, PROP, "plan", i) % 10**9})
     return cases
 
 
